@@ -9,8 +9,10 @@ MODULES = [
     ('src/bitmap/backend/atomic_bitmap.rs', 'verif_kani_c08', 'c08.rs'),
     ('src/bitmap/backend/atomic_bitmap.rs', 'verif_kani_bm', 'bm.rs'),
     ('src/io.rs', 'verif_kani_io', 'io.rs'),
+    ('src/guest_memory.rs', 'verif_kani_gmmock', 'gmmock.rs'),
     ('src/mmap/unix.rs', 'verif_kani_region', 'region.rs'),
-    ('src/mmap/mod.rs', 'verif_kani_rb', 'rb.rs'),
+    ('src/mmap/mod.rs', 'verif_kani_rb', 'rb.rs', 'not(feature = "xen")'),
+    ('src/mmap/xen.rs', 'verif_kani_xenflags', 'xenflags.rs'),
 ]
 
 _ADDR_CTX = [r'macro_rules!\s+impl_address_ops', r'\(\$T:ident, \$V:ty\)\s*=>', r'impl Address for \$T']
